@@ -582,6 +582,20 @@ func runParse(c *Ctx, std *fdCapture) {
 						c.addViolation(v)
 					}
 					c.Extra["fault_injections"] = asInt(c.Extra["fault_injections"]) + 1
+					// the same fault behind the standard library's own reader types: an io.SectionReader over a source that fails from
+					// offset k on (whatever the type of the reader, a fault in the middle of the data is an error)
+					if k < len(q) {
+						fa := &failingAt{data: []byte(q), failAt: k}
+						got := parseWith(func() (mpath.Operation, error) {
+							return mpath.ParseReadSeeker(io.NewSectionReader(fa, 0, int64(len(q))))
+						})
+						if fa.failed && got.Class != "ERR" {
+							v := mk("fault", fmt.Sprintf("an io.SectionReader over a source that fails from offset %d on yields %s instead of an error", k, got.Class))
+							v.Key = "fault:section-reader:" + got.Class
+							v.Extra = map[string]any{"fail_at": k, "result": trunc(got.Line, 200)}
+							c.addViolation(v)
+						}
+					}
 				}
 				// a reader that cannot even seek, then the query once more: the parse that ended early must not change the next one
 				if got := parseWith(func() (mpath.Operation, error) { return mpath.ParseReadSeeker(seekFailer{}) }); got.Class != "ERR" {
@@ -940,4 +954,34 @@ func loadCorpus(name string) []string {
 	var xs []string
 	json.Unmarshal(b, &xs)
 	return xs
+}
+
+// failingAt: an io.ReaderAt that delivers the bytes before failAt and fails on any read that reaches it
+type failingAt struct {
+	data   []byte
+	failAt int
+	failed bool
+}
+
+func (f *failingAt) ReadAt(p []byte, off int64) (int, error) {
+	if int(off) >= len(f.data) {
+		return 0, io.EOF
+	}
+	end := int(off) + len(p)
+	if end > len(f.data) {
+		end = len(f.data)
+	}
+	if end > f.failAt {
+		f.failed = true
+		n := 0
+		if int(off) < f.failAt {
+			n = copy(p, f.data[off:f.failAt])
+		}
+		return n, errInjected
+	}
+	n := copy(p, f.data[off:end])
+	if n < len(p) {
+		return n, io.EOF
+	}
+	return n, nil
 }
